@@ -150,8 +150,8 @@ def rule_sites(ctx):
     r = RuleResult("CW-SITES", ["C01", "C03", "C04", "C05", "C12"],
                    "every atomic access of RcInner.state is classified; none outside utils.rs")
     acc = ctx.scan_accesses()
-    rmw = [a for a in acc if a["op"] != "load"]
-    loads = [a for a in acc if a["op"] == "load"]
+    rmw = {(a.get("in"), a["bb"]) for a in acc if a["op"] != "load"}
+    loads = {(a.get("in"), a["bb"]) for a in acc if a["op"] == "load"}
     for a in acc:
         r.functions.add(a["fn"])
         if not a["file"].endswith("utils.rs"):
@@ -213,12 +213,13 @@ def upgrade_helpers(ctx):
     """RcInner methods returning bool that are called from Option-returning API functions of
     strong.rs / weak.rs (the `upgrade` role), whether or not they (still) add to the count."""
     out = set()
-    for name, b in ctx.prog.bodies.items():
-        if b.kind == "closure" or not (b.file().endswith("weak.rs") or b.file().endswith("strong.rs")):
+    for name, b0 in ctx.prog.bodies.items():
+        b = ctx.prog.bodies.get(ctx.prog.home(name), b0)
+        if not (b.file().endswith("weak.rs") or b.file().endswith("strong.rs")):
             continue
         if not b.locals[0]["ty"].startswith("std::option::Option<"):
             continue
-        for (bi, t, c) in b.calls():
+        for (bi, t, c) in b0.calls():
             tg = c.target or ""
             if tg.startswith("utils::RcInner::<T>::") and tg in ctx.prog.bodies and \
                     ctx.prog.bodies[tg].locals[0]["ty"] == "bool":
@@ -351,7 +352,8 @@ def rule_inc_fail_on_destructed(ctx):
     # callers outside utils.rs
     ncallers = 0
     for f in fns:
-        for (b, bi, t, c) in ctx.prog.callers_of(f):
+        for (b0, bi, t, c) in ctx.prog.callers_of(f):
+            b = ctx.prog.body(ctx.prog.home(b0.name))
             if b.file().endswith("utils.rs"):
                 continue
             out_ty = b.locals[0]["ty"]
